@@ -23,6 +23,7 @@
 from collections.abc import Iterable
 import datetime
 import decimal
+import urllib.parse
 from typing import AbstractSet
 
 from dashlive.utils.date_time import to_iso_datetime, toIsoDuration
@@ -152,7 +153,10 @@ def dict_to_cgi_params(params: dict[str, str]) -> str:
     keys.sort()
     lst = []
     for name in keys:
-        val = params[name]
+        # values are expected to have been quoted where that matters to
+        # them. Existing escapes (and '+') are left alone, any other
+        # character that can't be part of a query string value is quoted
+        val = urllib.parse.quote(str(params[name]), safe="%+/:=,;@!*'()~$-._")
         lst.append(f'{name}={val}')
     return '?' + '&'.join(lst)
 
